@@ -173,6 +173,51 @@ def make_env(case):
     return env
 
 
+ENC_VIAS = ["environ", "kw", "class", "after"]
+
+
+def make_request(case):
+    """The request of a case, with url_encoding configured through the route case['enc_via']:
+    'environ' (webob.url_encoding key), 'kw' (constructor keyword), 'class' (attribute of a subclass),
+    'after' (assigned on the instance after construction).  Returns (request, environ, class)."""
+    from webob import Request
+    env = make_env(case)
+    via = case.get("enc_via", "environ")
+    enc = case.get("enc", "UTF-8")
+    cls = Request
+    if via == "environ":
+        return Request(env), env, cls
+    env.pop("webob.url_encoding", None)
+    if via == "kw":
+        return Request(env, url_encoding=enc), env, cls
+    if via == "class":
+        cls = type("ConfiguredRequest", (Request,), {"url_encoding": enc})
+        return cls(env), env, cls
+    r = Request(env)
+    r.url_encoding = enc
+    return r, env, cls
+
+
+def make_blank(case, url, cls):
+    """Request.blank(url) configured with the original's url_encoding through the same route."""
+    from webob import Request
+    via = case.get("enc_via", "environ")
+    enc = case.get("enc", "UTF-8")
+    if via == "environ":
+        if enc == "UTF-8" and not case.get("enc_explicit"):
+            return Request.blank(url)
+        if case.get("blank_positional"):
+            return Request.blank(url, {"webob.url_encoding": enc})
+        return Request.blank(url, environ={"webob.url_encoding": enc})
+    if via == "kw":
+        return Request.blank(url, url_encoding=enc)
+    if via == "class":
+        return cls.blank(url)
+    b = Request.blank(url)
+    b.url_encoding = enc
+    return b
+
+
 def strip_default(scheme, host):
     d = default_port(scheme)
     if d and host.endswith(":" + d) and not host.endswith("]"):
@@ -197,8 +242,8 @@ def oracle_url(case):
     from webob import Request
     enc = case.get("enc", "UTF-8")
     scheme = case["scheme"]
-    env = make_env(case)
-    r = Request(dict(env))
+    r, env, cls = make_request(case)
+    env = dict(env)
     script_t, path_t = case.get("script") or "", case["path"]
     try:
         url, path_url, app_url = r.url, r.path_url, r.application_url
@@ -241,12 +286,11 @@ def oracle_url(case):
         return "url:structure", "url %r is not path_url + ?query (%r, %r)" % (url, path_url, qs)
     if not url.isascii():
         return "quote:not-percent-encoded-ascii", "url %r is not ASCII" % url
+    if case.get("skip_blank"):
+        return None
     # ---- Request.blank(request.url)
     try:
-        if enc == "UTF-8" and not case.get("enc_explicit"):
-            b = Request.blank(url)
-        else:
-            b = Request.blank(url, environ={"webob.url_encoding": enc})
+        b = make_blank(case, url, cls)
         got = (b.scheme, b.host, b.domain, b.host_port, b.environ["SCRIPT_NAME"] + b.environ["PATH_INFO"],
                b.script_name + b.path_info, b.query_string, b.url, b.path_qs)
     except Exception as e:  # noqa
@@ -269,7 +313,9 @@ def oracle_url(case):
                     "Request.blank(%r).%s = %r, the request has %r" % (url, n_, g, w))
     # the blank environ's SERVER_NAME / SERVER_PORT must describe the same host (PEP 3333 reconstruction
     # without HTTP_HOST gives the same URL)
-    b2 = Request({k: v for k, v in b.environ.items() if k != "HTTP_HOST"})
+    b2 = type(b)({k: v for k, v in b.environ.items() if k != "HTTP_HOST"})
+    if "url_encoding" in b.__dict__:
+        b2.__dict__["url_encoding"] = b.__dict__["url_encoding"]
     try:
         u2 = b2.url
     except Exception as e:  # noqa
@@ -295,12 +341,25 @@ def oracle_setget(case):
         want = text.encode(py_enc(enc)).decode("latin-1")
     except UnicodeError:
         return None        # not a text of this encoding: outside the statement
+    shape = case.get("shape", "str")
     try:
-        setattr(r, attr, text)
+        if shape == "bytes":
+            # bytes are accepted and taken as the already encoded path
+            setattr(r, attr, text.encode(py_enc(enc)))
+        elif shape == "strsub":
+            setattr(r, attr, type("Text", (str,), {})(text))
+        elif shape == "twice":
+            setattr(r, attr, text)
+            setattr(r, attr, str(text))
+        elif shape == "via-u":
+            setattr(r, "u" + attr, text)
+        else:
+            setattr(r, attr, text)
         back = getattr(r, attr)
         back_u = getattr(r, "u" + attr)
     except Exception as e:  # noqa
-        return "setget:raises", "assigning %r to %s (url_encoding %s) raises %s" % (text, attr, enc, type(e).__name__)
+        return "setget:raises", "assigning %r (%s) to %s (url_encoding %s) raises %s" % (
+            text, shape, attr, enc, type(e).__name__)
     if back != text or back_u != text:
         return "setget:readback", "%s = %r reads back %r / %r (url_encoding %s)" % (attr, text, back, back_u, enc)
     if env[key] != want or type(env[key]) is not str:
@@ -325,8 +384,7 @@ def ref_peek(path):
 
 def oracle_pop(case):
     """case: url case + ops: list of ["peek"] | ["pop", pattern|None]."""
-    from webob import Request
-    r = Request(make_env(case))
+    r, _, _ = make_request(case)
     for i, op in enumerate(case["ops"]):
         try:
             script0, path0 = r.script_name, r.path_info
@@ -344,7 +402,15 @@ def oracle_pop(case):
             continue
         pattern = op[1]
         try:
-            got = r.path_info_pop(pattern) if pattern is not None else r.path_info_pop()
+            shape = op[2] if len(op) > 2 else "pos"
+            if shape == "kw":
+                got = r.path_info_pop(pattern=pattern)
+            elif shape == "compiled" and pattern is not None:
+                got = r.path_info_pop(re.compile(pattern))
+            elif pattern is None and shape != "none":
+                got = r.path_info_pop()
+            else:
+                got = r.path_info_pop(pattern)
             script1, path1 = r.script_name, r.path_info
             raw1 = r.environ.get("SCRIPT_NAME", "") + r.environ["PATH_INFO"]
             obs1 = (r.path, r.url, r.path_qs, r.path_url)
@@ -391,12 +457,21 @@ def classify_rel(base, ref):
 
 def oracle_rel(case):
     """case: url case + other (reference text) + to_application (bool)."""
-    from webob import Request
     from urllib.parse import urljoin
-    r = Request(make_env(case))
+    r, _, _ = make_request(case)
     other, to_app = case["other"], case["to_application"]
+    shape = case.get("shape", "kw")
     try:
-        got = r.relative_url(other, to_application=to_app)
+        if shape == "pos":
+            got = r.relative_url(other, to_app)
+        elif shape == "int":
+            got = r.relative_url(other, to_application=1 if to_app else 0)
+        elif shape == "default" and not to_app:
+            got = r.relative_url(other)
+        elif shape == "allkw":
+            got = r.relative_url(other_url=other, to_application=to_app)
+        else:
+            got = r.relative_url(other, to_application=to_app)
         if to_app:
             base = r.application_url
             if not base.endswith("/"):
@@ -428,6 +503,7 @@ PATH_EXTRA = ["..", "%2F", "%2f", "+", ":", "@", "~", "€", "\U0001F600", "\\",
               "ı", "K", "//", "/./", "/../", "a/b", "{", "}", "|", "^", "`"]
 QUERIES = [None, "", "a=1", "a=1&b=2", "x=%C3%A9", "q=a+b", "a?b/c", "%", "=&;", "a=b=c", "'()*!$,", "~-._", "[]@:",
            "a%zz", "?", "//", "a=\"<>\"", "{}|\\^`"]
+POP_SHAPES = ["pos", "pos", "kw", "compiled", "none"]
 POP_PATTERNS = [None, None, None, "a", ".", r"\w+$", "^$", "[^/]+", "\xe9", "x", r"\.\.?$", "", "%"]
 REL_SEGS = [".", "..", "g", "%2e", "x=1", "a;p", "...", "g.", ".g", ";x", "\xe9"]
 REL_ODD = ["", "?", "#", "?y", "#s", "g?", "g#", "g;", "//g", "//g/a/../b", "http:g", "http://o/a/./b", "ftp://o/a/../b",
@@ -479,6 +555,11 @@ def gen_case(rng, schemes=None, enc=None):
             "script": script, "path": path, "qs": rng.choice(QUERIES), "enc": enc}
     if enc == "UTF-8" and rng.random() < 0.2:
         case["enc_explicit"] = True
+    x = rng.random()
+    if x < 0.45:
+        case["enc_via"] = rng.choice(ENC_VIAS[1:])
+    elif x < 0.55:
+        case["blank_positional"] = True
     return case
 
 
@@ -815,7 +896,13 @@ def gen_history(rng, maxops=10):
                 if key == "SCRIPT_NAME" and rng.random() < 0.15:
                     val = None
             ops.append(["env", key, val])
-        elif x < 0.74:
+        elif x < 0.68:
+            name = rng.choice(["host", "host", "scheme", "query_string", "server_name", "server_port", "delhost"])
+            val = {"host": host_text(gen_host(rng)), "scheme": rng.choice(["http", "https"]),
+                   "query_string": rng.choice([q for q in QUERIES if q is not None]), "server_name": rng.choice(NAMES),
+                   "server_port": rng.choice([80, 443, 8080, 81]), "delhost": None}[name]
+            ops.append(["attr", name, val])        # the same edits through the public attributes
+        elif x < 0.76:
             t = gen_text(rng, "latin-1", 5)
             ops.append(["set", rng.choice(["path_info", "script_name"]), "/" + t if rng.random() < 0.8 else t])
         elif x < 0.90:
@@ -841,7 +928,7 @@ def run_history(case, on_step=None):
         if "url_encoding" in r.__dict__:
             # url_encoding assigned on the instance while the subclass shadows the descriptor: that is
             # configuration of the object, so the identically configured fresh object carries it too
-            object.__setattr__(f, "url_encoding", r.__dict__["url_encoding"])
+            f.__dict__["url_encoding"] = r.__dict__["url_encoding"]
         return f
     for i, op in enumerate(case["ops"]):
         kind = op[0]
@@ -860,6 +947,11 @@ def run_history(case, on_step=None):
                 env.pop(op[1], None)
             else:
                 env[op[1]] = op[2]
+        elif kind == "attr":
+            if op[1] == "delhost":
+                catchv(lambda: delattr(r, "host"))
+            else:
+                catchv(lambda: setattr(r, op[1], op[2]))
         elif kind == "set":
             catchv(lambda: setattr(r, op[1], op[2]))
         elif kind == "pop":
@@ -933,6 +1025,199 @@ def oracle_orders(case):
                 return "stateful:order-dependent", "input #%d %r answers %r when evaluated after inputs %s, but %r in " \
                     "the original order" % (k, batch[k], got, perm[:pos], base[k])
     return None
+
+
+# ============================================================================ outside the modelled domain
+URL_READS = ["host_port", "host_url", "host", "domain", "application_url", "path_url", "path", "path_qs", "url"]
+OUT_TEXTS = ["/\ud800", "\udfff/a", "/a\ud83d", "/Ā", "/€", "/\U0001F600", "/\xe9", ""]
+OUT_NONTEXT = [None, 5, ["a"], 1.5, b"/\xff", b"/\xc3\xa9", b"", b"/a%"]
+OUT_ENCODINGS = ["cp1252", "shift_jis", "utf-16", "x-no-such-codec", "ascii", "utf-8-sig", "big5"]
+OUT_QUERIES = ["a#b", "a b", "\xe9=1", "a\tb", "a\nb", "#", " ", "a=€", "%zz#"]
+OUT_ALLOWED = {"UnicodeEncodeError", "UnicodeDecodeError", "LookupError", "KeyError", "TypeError", "AttributeError"}
+
+
+def _base_env(**kw):
+    env = {"REQUEST_METHOD": "GET", "wsgi.url_scheme": "http", "SERVER_NAME": "h", "SERVER_PORT": "80",
+           "PATH_INFO": "/old", "SCRIPT_NAME": "/olds", "QUERY_STRING": "q=1"}
+    env.update(kw)
+    return env
+
+
+def _decodes(raw, enc):
+    try:
+        raw.encode("latin-1").decode(enc)
+        return True
+    except LookupError:
+        return None
+    except UnicodeError:
+        return False
+
+
+def oracle_outside(case):
+    """What remains of the statement outside the domain of the theorems: refusals are the documented Unicode /
+    lookup / type errors and leave the environ alone; the views that do not depend on the bad part still work and
+    stay coherent with each other; nothing else is raised."""
+    from webob import Request
+    cl = case["class"]
+    if cl in ("assign-refused", "assign-nontext"):
+        enc, attr = case["enc"], case["attr"]
+        env = _base_env(**{"webob.url_encoding": enc})
+        r = Request(env)
+        val = case["value"]
+        if isinstance(val, dict):
+            val = bytes.fromhex(val["bytes"])
+        before = dict(env)
+        key = {"path_info": "PATH_INFO", "script_name": "SCRIPT_NAME"}[attr]
+        res = catchv(lambda: setattr(r, attr, val))
+        if isinstance(val, str):
+            try:
+                want = val.encode(enc).decode("latin-1")
+            except LookupError:
+                want = Err("LookupError")
+            except UnicodeError:
+                want = Err("UnicodeEncodeError")
+            if isinstance(want, Err):
+                if res != want or env != before:
+                    return "outside:refusal", "%s = %r under url_encoding %s: expected %r and an untouched environ, got " \
+                        "%r, environ %s" % (attr, val, enc, want, res, "changed" if env != before else "unchanged")
+                return None
+            if isinstance(res, Err) or env[key] != want:
+                return "outside:other-codec-store", "%s = %r under %s stores %r (%r), expected %r" % (
+                    attr, val, enc, env.get(key), res, want)
+            back = catchv(lambda: getattr(r, attr))
+            if enc.lower() not in ("ascii",) and back != val:
+                return "outside:other-codec-readback", "%s = %r under %s reads back %r" % (attr, val, enc, back)
+            return None
+        if val is None and attr == "script_name":
+            if isinstance(res, Err) or "SCRIPT_NAME" in env or r.script_name != "" or env["PATH_INFO"] != "/old":
+                return "outside:script-name-none", "script_name = None must remove the key and read back '' (got %r, %r)" % (
+                    res, env.get("SCRIPT_NAME"))
+            return None
+        if isinstance(val, bytes):
+            # bytes are accepted as the already encoded path: stored as their latin-1 view
+            if isinstance(res, Err) or env[key] != val.decode("latin-1"):
+                return "outside:bytes-store", "%s = %r stores %r (%r)" % (attr, val, env.get(key), res)
+            back = catchv(lambda: getattr(r, attr))
+            d = _decodes(env[key], py_enc(enc))
+            if (d and back != val.decode(py_enc(enc))) or (d is False and back != Err("UnicodeDecodeError")):
+                return "outside:bytes-readback", "%s = %r under %s reads back %r" % (attr, val, enc, back)
+            return None
+        if not isinstance(res, Err) or res.name not in ("TypeError", "AttributeError") or env != before:
+            return "outside:nontext-refusal", "%s = %r: expected TypeError/AttributeError and an untouched environ, got %r, " \
+                "environ %s" % (attr, val, res, "changed" if env != before else "unchanged")
+        return None
+    if cl == "raw-undecodable":
+        env = _base_env(**{case["key"]: case["raw"], "webob.url_encoding": case["enc"]})
+        r = Request(env)
+        before = dict(env)
+        obs = {n: _read(r, n) for n in URL_READS}
+        bad = Err("UnicodeEncodeError") if any(ord(c) > 255 for c in case["raw"]) else Err("UnicodeDecodeError")
+        for n in ("host_port", "host_url", "host", "domain"):
+            if isinstance(obs[n], Err):
+                return "outside:host-part-raises", "%s raises %r although only %s is undecodable" % (n, obs[n], case["key"])
+        dependent = ["path_url", "path", "path_qs", "url"] + (["application_url"] if case["key"] == "SCRIPT_NAME" else [])
+        for n in dependent:
+            if obs[n] != bad:
+                return "outside:undecodable-path", "%s = %r for %s = %r (url_encoding %s), expected %r" % (
+                    n, obs[n], case["key"], case["raw"], case["enc"], bad)
+        if case["key"] == "PATH_INFO":
+            if isinstance(obs["application_url"], Err):
+                return "outside:undecodable-path", "application_url raises %r although SCRIPT_NAME is fine" % obs["application_url"]
+            for nm, f in (("path_info_peek", r.path_info_peek), ("path_info_pop", r.path_info_pop)):
+                if catchv(f) != bad:
+                    return "outside:undecodable-path", "%s does not raise %r on undecodable PATH_INFO" % (nm, bad)
+        if env != before:
+            return "outside:environ-changed", "reading / popping an undecodable request changed the environ"
+        return None
+    if cl == "host-malformed":
+        env = _base_env(HTTP_HOST=case["host"], **{"wsgi.url_scheme": case["scheme"]})
+        r = Request(env)
+        obs = {n: _read(r, n) for n in URL_READS}
+        for n, v in obs.items():
+            if isinstance(v, Err):
+                return "outside:host-raises", "%s raises %r for Host %r" % (n, v, case["host"])
+        h = case["host"]
+        if ":" in h and not h.endswith("]"):
+            ok = obs["domain"] + ":" + obs["host_port"] == h
+        else:
+            ok = obs["domain"] == h and obs["host_port"] == default_port(case["scheme"])
+        if not ok or not obs["host_url"].startswith(case["scheme"] + "://" + obs["domain"]) or obs["host"] != h:
+            return "outside:host-incoherent", "Host %r: domain %r, host_port %r, host_url %r do not describe it" % (
+                h, obs["domain"], obs["host_port"], obs["host_url"])
+        if obs["url"] != obs["path_url"] + "?q=1" or obs["path_url"] != obs["host_url"] + obs["path"]:
+            return "outside:url-structure", "Host %r: url %r / path_url %r / path %r inconsistent" % (
+                h, obs["url"], obs["path_url"], obs["path"])
+        return None
+    if cl == "query-odd":
+        env = _base_env(QUERY_STRING=case["qs"])
+        r = Request(env)
+        obs = {n: _read(r, n) for n in URL_READS}
+        if obs["url"] != "http://h/olds/old?" + case["qs"] or obs["path_qs"] != "/olds/old?" + case["qs"]:
+            return "outside:query-verbatim", "QUERY_STRING %r: url %r, path_qs %r" % (case["qs"], obs["url"], obs["path_qs"])
+        b = catchv(lambda: Request.blank(obs["url"]).environ["QUERY_STRING"])
+        if isinstance(b, Err) and b.name not in ("TypeError", "ValueError", "UnicodeEncodeError"):
+            return "outside:blank-raises", "Request.blank(%r) raises %r" % (obs["url"], b)
+        return None
+    if cl == "missing-key":
+        env = _base_env(HTTP_HOST="h:81") if case.get("with_host") else _base_env()
+        env.pop(case["key"], None)
+        r = Request(env)
+        obs = {n: _read(r, n) for n in URL_READS}
+        for n, v in obs.items():
+            if isinstance(v, Err) and v.name not in ("KeyError", "TypeError"):
+                return "outside:missing-key", "without %s, %s raises %r" % (case["key"], n, v)
+        if case["key"] not in ("PATH_INFO",) and obs["path"] != ("/old" if case["key"] == "SCRIPT_NAME" else "/olds/old"):
+            return "outside:missing-key", "without %s, path = %r" % (case["key"], obs["path"])
+        return None
+    if cl == "unrooted":
+        c = dict(case["case"], skip_blank=True)
+        return oracle_url(c)
+    if cl == "arg-type":
+        r = Request(_base_env())
+        before = dict(r.environ)
+        for nm, f in (("path_info_pop(bytes pattern)", lambda: r.path_info_pop(b"o")),
+                      ("relative_url(bytes)", lambda: r.relative_url(b"x")),
+                      ("relative_url(None)", lambda: r.relative_url(None))):
+            v = catchv(f)
+            if isinstance(v, Err) and v.name not in ("TypeError", "AttributeError"):
+                return "outside:arg-type", "%s raises %r" % (nm, v)
+        if r.environ != before:
+            return "outside:arg-type", "a refused call changed the environ"
+        return None
+    return None
+
+
+def outside_cases(ctx, rng):
+    out = []
+    for attr in ("path_info", "script_name"):
+        for enc in ("UTF-8", "latin-1", "ascii") + tuple(OUT_ENCODINGS):
+            for t in OUT_TEXTS:
+                out.append({"class": "assign-refused", "attr": attr, "enc": enc, "value": t})
+        for v in OUT_NONTEXT:
+            for enc in ("UTF-8", "latin-1"):
+                out.append({"class": "assign-nontext", "attr": attr, "enc": enc,
+                            "value": {"bytes": v.hex()} if isinstance(v, bytes) else v})
+    for key in ("PATH_INFO", "SCRIPT_NAME"):
+        for raw in MAL_RAW:
+            if _decodes(raw, "utf-8") is not False and all(ord(c) < 256 for c in raw):
+                continue
+            out.append({"class": "raw-undecodable", "key": key, "raw": raw, "enc": "UTF-8"})
+    for h in MAL_HOSTS:
+        for scheme in ("http", "https"):
+            out.append({"class": "host-malformed", "host": h, "scheme": scheme})
+    for q in OUT_QUERIES:
+        out.append({"class": "query-odd", "qs": q})
+    for k in ("wsgi.url_scheme", "SERVER_NAME", "SERVER_PORT", "PATH_INFO", "SCRIPT_NAME", "QUERY_STRING"):
+        out.append({"class": "missing-key", "key": k})
+        out.append({"class": "missing-key", "key": k, "with_host": True})
+    out.append({"class": "arg-type"})
+    for _ in range(ctx.scale(300, 3000)):
+        c = gen_case(rng)
+        t = gen_text(rng, c["enc"], 5)
+        c["script"], c["path"] = rng.choice([("", t), (t, ""), (t, gen_text(rng, c["enc"], 3))])
+        out.append({"class": "unrooted", "case": c})
+    return out
+
 
 
 # ============================================================================ the check
@@ -1224,7 +1509,8 @@ def run_oracle(ctx):
                     n += 1
     for _ in range(ctx.scale(4000, 60000)):
         enc = rng.choice(["UTF-8", "utf-8", "latin-1", "utf8", "iso-8859-1", "latin1"])
-        case = {"attr": rng.choice(["path_info", "script_name"]), "text": gen_text(rng, enc, 10), "enc": enc}
+        case = {"attr": rng.choice(["path_info", "script_name"]), "text": gen_text(rng, enc, 10), "enc": enc,
+                "shape": rng.choice(["str", "str", "bytes", "strsub", "twice", "via-u"])}
         record(ctx, guarded(oracle_setget)(case), case, "setget")
         n += 1
     ctx.oracle_count("setget", n, n)
@@ -1240,7 +1526,8 @@ def run_oracle(ctx):
             n += 1
     for _ in range(ctx.scale(8000, 120000)):
         case = gen_case(rng)
-        case["ops"] = [rng.choice([["peek"], ["pop", rng.choice(POP_PATTERNS)], ["pop", None]])
+        case["ops"] = [rng.choice([["peek"], ["pop", rng.choice(POP_PATTERNS), rng.choice(POP_SHAPES)],
+                                   ["pop", None, rng.choice(["pos", "kw", "none"])]])
                        for _ in range(rng.randrange(1, 8))]
         record(ctx, guarded(oracle_pop)(case), case, "pop")
         n += 1
@@ -1275,6 +1562,7 @@ def run_oracle(ctx):
         case["other"] = (p + rng.choice(["", "", "?y", "?y=/../z"]) + rng.choice(["", "", "#s", "#s/../t"])
                          if rng.random() < 0.7 else rng.choice(REL_ODD))
         case["to_application"] = rng.random() < 0.3
+        case["shape"] = rng.choice(["kw", "pos", "int", "default", "allkw"])
         record(ctx, guarded(oracle_rel)(case), case, "relative_url")
         n += 1
     ctx.oracle_count("relative_url", n, n)
@@ -1338,6 +1626,12 @@ def run_stateful_oracle(ctx):
         record(ctx, guarded(oracle_history)(case), case, "history")
         n += 1
     ctx.oracle_count("history", n, n)
+    n = 0
+    for case in outside_cases(ctx, rng):
+        case["kind"] = "outside"
+        record(ctx, guarded(oracle_outside)(case), case, "outside-domain")
+        n += 1
+    ctx.oracle_count("outside-domain", n, n)
 
 
 def run_orders_oracle(ctx):
@@ -1364,7 +1658,9 @@ def replay(ctx, path):
     case = data["case"]
     res = None
     if isinstance(case, dict):
-        if case.get("history"):
+        if case.get("kind") == "outside":
+            res = guarded(oracle_outside)(case)
+        elif case.get("history"):
             res = guarded(oracle_history)(case)
         elif "batch" in case:
             res = guarded(oracle_orders)(case)
@@ -1385,6 +1681,10 @@ def replay(ctx, path):
         else:
             print("replay: nothing executable in this file (broken obligation / model disagreement): %s" % data.get("what"))
             return 1
+    if res and ("C13", res[0]) in ctx.known:
+        print("KNOWN-FINDING: property=C13 %s [%s]" % (ctx.known[("C13", res[0])], res[0]))
+        print("replay shows only a recorded known finding on the current tree")
+        return 0
     if res:
         print("VIOLATION property=C13 replay=%s" % path)
         print("  (%s) %s" % res)
